@@ -246,6 +246,43 @@ func RecursionVerdict(s *Schema) (Verdict, string) {
 			return Unspec, "type " + t.Name + " is illegally recursive but the root does not require it"
 		}
 	}
+	// inheritance is expanded wherever the inheriting object stands (array items, optional
+	// properties): a cycle of "the body of T holds, at any depth, an object inheriting from P" is
+	// not settled by the statement's "required references" wording
+	holds := map[string][]string{}
+	for _, t := range s.Types {
+		if t.Root == nil {
+			continue
+		}
+		t.Root.Walk(func(x *Node) {
+			if r := x.Rule("allOf"); r != nil {
+				holds[t.Name] = append(holds[t.Name], r.List...)
+			}
+		})
+	}
+	state := map[string]int{}
+	var cyc func(n string) bool
+	cyc = func(n string) bool {
+		switch state[n] {
+		case 1:
+			return true
+		case 2:
+			return false
+		}
+		state[n] = 1
+		for _, p := range holds[n] {
+			if cyc(p) {
+				return true
+			}
+		}
+		state[n] = 2
+		return false
+	}
+	for _, t := range s.Types {
+		if cyc(t.Name) {
+			return Unspec, "allOf cycle through an object nested in " + t.Name
+		}
+	}
 	return Accept, ""
 }
 
